@@ -12,3 +12,6 @@ import NB.Drv.C06
 import NB.Drv.C08
 import NB.Drv.C03
 import NB.Drv.C07
+import NB.Drv.C11
+import NB.Drv.C12
+import NB.Drv.C13
